@@ -1115,7 +1115,24 @@ class Evaluator:
             a, b = vals
             if isinstance(a, CtxV) and a.maybe_none and isinstance(b, CtxV):
                 return self.merge_ctx(Sym("ctx-present", ()), a.with_(), b)
+            r = self._or2(a, b)
+            if r is not None:
+                return r
         return Sym("op", ("and" if is_and else "or",) + tuple(vals))
+
+    def _or2(self, a, b, depth=0):
+        """`a or b` where a is a conditional value / rendered text: the choice is kept visible as an alternative"""
+        if depth > 6:
+            return None
+        if isinstance(a, Phi):
+            x = self._or2(a.a, b, depth + 1) if self.truth(a.a) is None else (a.a if self.truth(a.a) else b)
+            y = self._or2(a.b, b, depth + 1) if self.truth(a.b) is None else (a.b if self.truth(a.b) else b)
+            if x is None or y is None:
+                return None
+            return self.merge(a.cond, x, y)
+        if isinstance(a, Str) and isinstance(b, Str):
+            return s_alt(Sym("op", ("truthy", a)), a, b)
+        return None
 
     def e_Compare(self, e, fr):
         left = self.eval(e.left, fr)
@@ -1556,6 +1573,20 @@ class Evaluator:
             names = self._spec_names(spec)      # text derived from a typed value is an exact str
             if names is not None and not (isinstance(v, Sym) and v.kind == "typed"):
                 return Const("str" in names)
+        if isinstance(v, Obj) and not v.root:
+            # a supplied child of a known package class: builtin / stdlib types it does not inherit from are excluded
+            ext = {b.rsplit(".", 1)[-1] for k in v.cls.mro for b in k.extern_bases}
+            items = [i.value for i in spec.items if isinstance(i, One)] if isinstance(spec, ListV) else [spec]
+            if (not isinstance(spec, ListV) or len(items) == len(spec.items)) and items:
+                verdicts = []
+                for it in items:
+                    if isinstance(it, ClassRef):
+                        verdicts.append(v.cls.is_subclass_of(it.cls) or v.cls is it.cls)
+                    else:
+                        nm = self._spec_names(it)
+                        verdicts.append(None if nm is None else bool(nm & ext))
+                if all(x is not None for x in verdicts):
+                    return Const(any(verdicts))
         classes = []
         if isinstance(spec, ClassRef):
             classes = [spec.cls]
